@@ -213,6 +213,14 @@ fn event_to_usize(e: &TriggerEvent) -> usize {
     }
 }
 
+#[cfg(feature = "verif")]
+impl SimEvent {
+    /// Read access to the private (bypass, replace) flags (verification hook).
+    pub fn verif_flags(&self) -> (bool, bool) {
+        (self.bypass, self.replace)
+    }
+}
+
 // for SimEvent, implement Ord and PartialOrd to allow for sorting by time
 impl Ord for SimEvent {
     fn cmp(&self, other: &Self) -> Ordering {
